@@ -1,7 +1,7 @@
 #!/bin/bash
 # tools/try_seed.sh <patch.diff> <ID> [tier] [extra check args...] : apply a seeded patch to a scratch copy of /repo and run the check there.
 # prints the verdict line; exit code = the check's exit code (1 = caught).
-patch=$(realpath "$1"); id=$2; tier=${3:-quick}; shift 3 2>/dev/null
+patch=$(realpath "$1"); id=$2; tier=${3:-quick}; if [ $# -ge 3 ]; then shift 3; else shift $#; fi
 name=try_$(basename $(dirname $patch))_$$
 cd /verif
 tools/scratch.sh new $name >/dev/null
